@@ -584,7 +584,7 @@ func (s *wf) apply1(t []string, lastChmod string) bool {
 		case "h.read", "h.readat":
 			// zero-length reads are left to C02: the OS answers them without looking at the position
 			return !h.dir && atoi(t[2]) > 0 && (h.closed || h.readable) && (t[0] == "h.read" || atoi64(t[3]) >= 0)
-		case "h.write", "h.writeat", "h.trunc":
+		case "h.write", "h.writestring", "h.writeat", "h.trunc":
 			if t[0] == "h.writeat" && atoi64(t[3]) < 0 || t[0] == "h.trunc" && atoi64(t[2]) < 0 {
 				return false
 			}
@@ -743,7 +743,7 @@ func genC01(r *corr.Rand, steps int) corr.Case {
 			}
 			switch q := r.Intn(100); {
 			case q < 25:
-				try(fmt.Sprintf("h.write %d %s", hi, corr.Hex(payload(r, r.Intn(6)))))
+				try(fmt.Sprintf("%s %d %s", corr.Pick(r, []string{"h.write", "h.write", "h.writestring"}), hi, corr.Hex(payload(r, r.Intn(6)))))
 			case q < 40:
 				try(fmt.Sprintf("h.writeat %d %s %d", hi, corr.Hex(payload(r, r.Intn(6))), r.Intn(12)))
 			case q < 58:
